@@ -597,3 +597,7 @@ HARMLESS += [
 HARMLESS += [
     dict(id="H-C18-default-chunk-size", prop="C18", file=CFF, old="    pub(super) const DEFAULT_CHUNK_SIZE: usize = 1024 * 1024;", new="    pub(super) const DEFAULT_CHUNK_SIZE: usize = 2 * 1024 * 1024;"),
 ]
+
+MUTATIONS += [
+    dict(id="C08-actor-pack-id-of-default", prop="C08", file=PK, old="                        (file, PackId::from(id), index)", new="                        (file, index.id, index)"),
+]
